@@ -347,7 +347,7 @@ func (E *Engine) constStrOf(v Val) (string, bool) {
 func (E *Engine) strConstFacts(x *Exec, used map[string]bool) []*Term {
 	var out []*Term
 	mem := Var("$"+sanitize(hkey("S", "byte", 0))+"@0", x.memSort(leafInfo{S: x.tc.scalarSort(types.Typ[types.Uint8])}))
-	for refStr := range used {
+	for _, refStr := range sortedKeysB(used) {
 		s := E.strByRef[refStr]
 		id := E.strConsts[s]
 		ref := IntC(int64(-1000 - id))
